@@ -21,7 +21,7 @@ CLAIMED = {
         ref="§3 C11"),
     "C02": dict(
         text="Proof, by generated round-trip lemmas verified against the real encoder and decoder bodies ('exact' mode: AllocAndPack, knxnet.Unpack, cemi.Pack/Unpack and every Pack/Unpack below them are inlined; solver-aided pruning of infeasible decoder paths): for ConnReq, ConnStateReq/Res, DiscReq/Res, TunnelRes, SearchReq, DescriptionReq and for TunnelReq and RoutingInd carrying each of L_Data.req/con/ind (application and control transport units), L_Raw.req/con/ind, L_Busmon.ind and unsupported codes, with every field symbolic (additional info 0..255 bytes, payload 1..255 bytes, all 8/16-bit fields): Unpack(AllocAndPack(v)) succeeds, consumes the whole encoding, yields the same service type and message code and equal fields. ConnRes: channel, status and (status 0) control. Decode/re-encode/decode stability for the eight flat service types.",
-        note="Assumes as C01/C15. NOT covered yet: SearchRes/DescriptionRes (friendly name passes through the charmap codec, an assumed contract without an inverse), decode-re-encode stability of the cEMI carriers. ConnRes: the decoder does not read the 4-byte connection response data block, so the lemma states only the fields it reads. Payload length 255 rather than 254 is allowed by the lemma precondition (the code accepts it).",
+        note="Assumes as C01/C15. SearchRes/DescriptionRes are NOT covered deductively (friendly name passes through the charmap codec, an assumed contract without an inverse): a BOUNDED stand-in executes their round trip on the real code for names of every length 0..29, 0..20 families (not exhaustive). Not covered: decode-re-encode stability of the cEMI carriers. ConnRes: the decoder does not read the 4-byte connection response data block, so the lemma states only the fields it reads. Payload length 255 rather than 254 is allowed by the lemma precondition (the code accepts it).",
         ref="§3 C02"),
     "C06": dict(
         text="Proof, by one generated lemma per registered type (152 types; statement taken from the property: Unpack(b) ok ==> Unpack(Pack(v)) ok with the same value, plus byte identity of the re-encoding for the exact integer, bit-field, enumeration, character and IEEE formats), verified against the real Pack/Unpack bodies ('exact' mode) for every payload of every length. For the 20 two-octet float types 9.xxx the round trip is decided by exhaustive execution of the real code over all 65,536 payloads of each type (complete, labelled bounded stand-in; per-exponent deductive slices of the codec run in the thorough tier). For 16.000/16.001 only a BOUNDED stand-in exists.",
@@ -29,14 +29,14 @@ CLAIMED = {
         ref="§3 C06"),
     "C07": dict(
         text="Proof, by one generated lemma per numeric/string datapoint type, that every encoding has the prescribed fixed length and leading zero octet (or 6-bit single octet) and is accepted by the type's own decoder; exactness for the integer formats; saturation (no wrap, no sign change) and one-step accuracy for 5.001, 5.003, 8.003, 8.004, 8.010 in bit-precise float arithmetic; 17.001/18.001 field clamps; monotonicity lemmas for the five scaled types (thorough tier). packF16 (format, zero, loop bounds), roundF16, unpackF16 and the 16.xxx encoders are under their own contracts. For the 9.xxx types accuracy, monotonicity, saturation and self-decodability of the shared codec are decided by exhaustive execution of the real packF16/unpackF16 over every non-NaN float32 (labelled bounded stand-in; per type over every float32 in the thorough tier).",
-        note="Assumes as C08. The 9.xxx numeric claims rest on execution over the complete float32 domain (4.26e9 values, ~30 s on 16 cores), not on discharged obligations; the quick tier checks the per-type bounds only at the range end points and relies on the codec's (exhaustively checked) monotonicity for the values in between. 10.001/11.001 invalid-field gates and 28.001 are covered for format/self-decodability only.",
+        note="Assumes as C08. The 9.xxx numeric claims rest on execution over the complete float32 domain (4.26e9 values, ~30 s on 16 cores), not on discharged obligations; per type, a lemma proves Pack(x) == packF16(clamp(x, lo, hi)) for every float32 (packF16 is exposed to callers as an uninterpreted function of its argument; that it is one is established by a syntactic purity analysis of packF16/roundF16), and the stand-in checks that both range end points encode to payloads the type accepts. 10.001/11.001 invalid-field gates and 28.001 are covered for format/self-decodability only.",
         ref="§3 C07"),
     "C08": dict(
         text="Proof for Unpack, String and Unit of every datapoint type in package dpt (174 types, 522 functions, each under its own contract): no panic for any byte slice of any length and capacity; a payload whose length differs from the fixed length of the type's main number is rejected (28.001: fewer than 2 bytes); and on success the decoded value lies in the documented range (9.xxx bounds in bit-precise float32 arithmetic, 5.001 in [0,100], 5.003 in [0,360], time of day, calendar date 1990..2089 with the right month lengths, scene numbers). String/Unit: no panic for in-range values.",
         note="Assumes: go/ssa semantics, 64-bit int, SMT FloatingPoint theory = IEEE-754 binary32/64 with round-to-nearest-even as on amd64 (no FMA fusion), fmt.Sprintf/Errorf/errors.New return some string/non-nil error, time.Date normalises exactly the invalid civil dates (conformance test in the thorough tier), []rune/string conversions as abstract UTF-8 codecs. The 9.xxx range bounds in the contract file were read once from the documented ranges and frozen.",
         ref="§3 C08"),
     "C16": dict(
-        text="Proof for TunnelSocket.Send and RouterSocket.Send (exactly one Write/WriteToUDP of a freshly allocated buffer of 6+Size bytes whose header length field equals the length written), for serveUDPSocket (one datagram read per iteration, at most one frame sent on inbound per datagram, inbound closed exactly once on every exit) and serveTCPSocket (at most one frame per iteration; every iteration that loops has advanced the ghost stream position — the receiver cannot spin; inbound closed exactly once), and for Tunnel.hostInfo (all-zero NAT endpoint unless a local address is to be sent over UDP).",
+        text="Proof for TunnelSocket.Send and RouterSocket.Send (exactly one Write/WriteToUDP of a freshly allocated buffer of 6+Size bytes whose header length field equals the length written), for serveUDPSocket (one datagram read per iteration, at most one frame sent on inbound per datagram, inbound closed exactly once on every exit) and serveTCPSocket (at most one frame per iteration; every iteration that loops has advanced the ghost stream position — the receiver cannot spin; inbound closed exactly once), and for Tunnel.hostInfo (all-zero NAT endpoint unless a local address is to be sent over UDP; protocol code TCP4 iff the socket's local address reports network \"tcp\", UDP4 iff \"udp\", error otherwise).",
         note="Assumes contracts for net.Conn.Write / (*net.UDPConn).WriteToUDP / ReadFromUDP (0 <= n <= len), bufio.Reader.Peek and io.ReadFull as a byte stream (ghost position), net.IP.Equal. Independence of TCP segmentation is inherited from that assumed byte-stream contract, it is not a result. Concurrent senders: freshness of the buffer is proved, atomicity of one Write is assumed. SupportedServicesDIB bounded to 5 families as in C15.",
         ref="§3 C16"),
     "C03": dict(
